@@ -31,7 +31,11 @@ sys.path.insert(0, str(core.VERIF / "translator"))
 C20 = core.THEORIES / "C20"
 GEN = core.THEORIES / "Gen"
 PROP_FILES = [C20 / "Props.v"]          # generic part: in _CoqProject, built by make
-PER_RUN = C20 / "PerRun.v"              # depends on Gen/*: compiled by this check, never by setup's make
+# per-run statement files: depend on Gen/*, compiled by this check (in parallel), never by setup's make
+PER_RUN_BASE = C20 / "PerRunBase.v"
+PER_RUN_PARTS = [C20 / "PerRunAug.v", C20 / "PerRunPass.v", C20 / "PerRunInterp.v", C20 / "PerRunSched.v",
+                 C20 / "PerRunVal.v"]
+PER_RUN = C20 / "PerRun.v"              # re-exports the parts (status booleans are evaluated through it)
 GEN_CHAIN = [GEN / "C20_Schema.v", GEN / "C20_Builders.v", C20 / "Eval.v"]
 PREAMBLE = ("From SV Require Import C20.CfgTree Gen.C20_Schema Gen.C20_Builders C20.Eval.\n"
             "From Coq Require Import List String ZArith QArith.\nImport ListNotations.\nOpen Scope string_scope.\n")
@@ -103,6 +107,7 @@ SECTION = {"get_data_config": "data_config", "get_model_config": "model_config",
 SEL_F12 = "aug_affine_presets_conflict"
 SEL_F13 = "backbone_preset_not_subclass"
 SEL_F16 = "convnext_unknown_model_type"
+SEL_F52 = "schema_default_mutable_literal_shared"
 
 
 # --------------------------------------------------------------------------- values
@@ -129,6 +134,10 @@ def canon(v):
     if isinstance(v, int):
         return int(v)
     if isinstance(v, float):
+        if v != v:
+            return {"nf": "nan"}
+        if v in (float("inf"), float("-inf")):
+            return {"nf": "inf" if v > 0 else "-inf"}
         f = Fraction(repr(v))
         return {"f": [f.numerator, f.denominator]}
     if isinstance(v, str):
@@ -157,12 +166,17 @@ def coq_of(v) -> str:
     if isinstance(v, int):
         return f"(VInt ({v})%Z)"
     if isinstance(v, float):
+        if v != v:
+            return "(VNonFin NaN)"
+        if v in (float("inf"), float("-inf")):
+            return "(VNonFin PInf)" if v > 0 else "(VNonFin NInf)"
         f = Fraction(repr(v))
         return f"(VFloat (({f.numerator}) # {f.denominator}))"
     if isinstance(v, str):
         if v == "???":
             return "VMissing"
-        if not all(ch.isalnum() or ch in "_./-<> " for ch in v):
+        # no quote, no backslash, printable ASCII only: rcfg does not escape, Coq needs no doubling
+        if not all(ch.isascii() and (ch.isalnum() or ch in "_./-<> :,#[]{}!&*?|=@%~+'") for ch in v):
             raise ValueError(f"string {v!r} outside the harness alphabet")
         return f'(VStr "{v}")'
     if isinstance(v, list):
@@ -206,6 +220,8 @@ def loose(c):
     if isinstance(c, dict):
         if "f" in c:
             return ("num", Fraction(c["f"][0], c["f"][1]))
+        if "nf" in c:
+            return ("nf", c["nf"])
         if "t" in c:
             return [loose(x) for x in c["t"]]
         if "m" in c:
@@ -237,6 +253,103 @@ def attempt(fn):
         return {"err": ERR_KIND.get(n, n)}
 
 
+# --------------------------------------------------------------------------- call - mutate - call sequences
+
+def walk_mutables(v, path=(), owner=()):
+    """(path, object, owner) for every mutable object reachable from a configuration value: attrs
+    instances, lists, dicts (tuples are walked through).  owner = the chain of (class, field) pairs of
+    the enclosing attrs instances' fields under which the object sits (outermost first)."""
+    if is_attrs(v):
+        yield path, v, owner
+        for a in type(v).__attrs_attrs__:
+            yield from walk_mutables(getattr(v, a.name), path + (a.name,), owner + ((type(v).__name__, a.name),))
+    elif isinstance(v, (list, tuple)):
+        if isinstance(v, list):
+            yield path, v, owner
+        for i, x in enumerate(v):
+            yield from walk_mutables(x, path + (f"[{i}]",), owner)
+    elif isinstance(v, dict):
+        yield path, v, owner
+        for k, x in v.items():
+            yield from walk_mutables(x, path + (str(k),), owner)
+
+
+def scramble(v, log):
+    """Mutate, in place, every mutable object reachable from v (what a caller customising a returned
+    configuration may do); `log` receives the undo records."""
+    objs, seen = list(walk_mutables(v)), set()
+    for _, o, _ in objs:
+        if id(o) in seen:
+            continue
+        seen.add(id(o))
+        if isinstance(o, list):
+            log.append(("list", o, list(o)))
+            for i in range(len(o)):
+                o[i] = "mutated"
+            o.append("mutated")
+        elif isinstance(o, dict):
+            log.append(("dict", o, dict(o)))
+            for k in list(o):
+                o[k] = "mutated"
+            o["mutated"] = 1
+        else:
+            for a in type(o).__attrs_attrs__:
+                log.append(("attr", o, a.name, getattr(o, a.name)))
+                object.__setattr__(o, a.name, "mutated")      # bypasses the on_setattr validators
+
+
+def unscramble(log):
+    for rec in reversed(log):
+        if rec[0] == "list":
+            rec[1][:] = rec[2]
+        elif rec[0] == "dict":
+            rec[1].clear()
+            rec[1].update(rec[2])
+        else:
+            object.__setattr__(rec[1], rec[2], rec[3])
+
+
+def canon_diff(a, b, path=(), owner=(), out=None):
+    """Paths (with the chain of owning (class, field) pairs) at which two canonical trees differ."""
+    out = [] if out is None else out
+    if isinstance(a, dict) and isinstance(b, dict) and "kv" in a and "kv" in b and a.get("o") == b.get("o") \
+            and [k for k, _ in a["kv"]] == [k for k, _ in b["kv"]]:
+        for (k, x), (_, y) in zip(a["kv"], b["kv"]):
+            canon_diff(x, y, path + (k,), owner + ((a["o"], k),), out)
+    elif dumps(a) != dumps(b):
+        out.append((path, owner))
+    return out
+
+
+def attempt_twice(fn):
+    """Calls fn, snapshots the result, mutates it in place as deeply as possible, calls fn again with
+    the same arguments (same process), then undoes the mutation.  Returns (outcome of the FIRST call,
+    info about the second one): the second result must equal the first snapshot and share no mutable
+    object with the first result ("a fresh, complete configuration on every call")."""
+    try:
+        r1 = fn()
+        snap = canon(r1)
+    except Exception as e:  # compared by kind
+        n = type(e).__name__
+        return {"err": ERR_KIND.get(n, n)}, None
+    first = {id(o): (p, own) for p, o, own in walk_mutables(r1)}
+    keep = [o for _, o, _ in walk_mutables(r1)]          # keeps the ids alive
+    log, info = [], {}
+    scramble(r1, log)
+    try:
+        try:
+            r2 = fn()
+            snap2 = canon(r2)
+            info["differs"] = canon_diff(snap, snap2)
+            info["shared"] = [(p2, own2) for p2, o, own2 in walk_mutables(r2) if id(o) in first]
+        except Exception as e:
+            info["second_raised"] = type(e).__name__
+    finally:
+        unscramble(log)
+    del keep
+    return {"ok": snap}, info
+
+
 # --------------------------------------------------------------------------- implementation
 
 class Impl:
@@ -258,6 +371,9 @@ class Impl:
                 if isinstance(c, type) and hasattr(c, "__attrs_attrs__") and c.__module__ == mod.__name__:
                     self.classes[n] = c
         self.tmp = core.scratch_dir("sv_c20_")
+        # schema defaults declared as a mutable literal (not a factory): attrs hands the SAME object to every instance
+        self.mutable_literal_fields = {(n, a.name) for n, c in self.classes.items() for a in c.__attrs_attrs__
+                                       if isinstance(a.default, (list, dict, set)) or is_attrs(a.default)}
 
     def builder(self, name):
         return getattr(self.T, name)
@@ -451,6 +567,41 @@ def oracle_head(impl, arg, out):
     return bad
 
 
+def oracle_sequence(sec):
+    """call - mutate - call: the second call with the same arguments gives the same configuration as the
+    first one did, built from fresh objects (nothing the caller did to the first result shows)."""
+    bad = []
+    if "second_raised" in sec:
+        bad.append((f"the same call raised {sec['second_raised']} after the first result had been mutated", []))
+    if sec.get("differs"):
+        p, _ = sec["differs"][0]
+        bad.append((f"the same call returned a different configuration after the first result had been mutated "
+                    f"(first difference at {'.'.join(p)}; {len(sec['differs'])} in all)",
+                    [own for _, own in sec["differs"]]))
+    if sec.get("shared"):
+        p, _ = sec["shared"][0]
+        bad.append((f"two calls returned configurations that share a mutable object (at {'.'.join(p)}; "
+                    f"{len(sec['shared'])} in all): not a fresh configuration per call",
+                    [own for _, own in sec["shared"]]))
+    return bad
+
+
+def sel_f52(impl, owners):
+    """every shared object / leaked value sits under a schema default that is declared as a mutable literal or
+    an instance instead of a factory"""
+    lit = impl.mutable_literal_fields
+    return SEL_F52 if owners and all(any(o in lit for o in chain) for chain in owners) else None
+
+
+def outermost_shared(impl, owners):
+    """the declared shared-literal field each offending chain passes through (or the innermost owner if none)"""
+    out = set()
+    for chain in owners:
+        hit = [o for o in chain if o in impl.mutable_literal_fields]
+        out.add(hit[0] if hit else (chain[-1] if chain else ("<root>", "")))
+    return out
+
+
 def prob_expect(v):
     """out-of-range probabilities are rejected, in-range ones accepted"""
     if isinstance(v, (int, float)):       # bool is an int: True == 1.0 is in range
@@ -500,7 +651,57 @@ COMPANION = {"pre_trained_weights": {"backbone_config": "convnext"},
              "geometry_aug": {"use_augmentations_train": True}}
 
 
+NAN, INF = float("nan"), float("inf")
+SCHEDULERS = ["step_lr", "reduce_lr_on_plateau"]
+# strings a YAML loader could take for something else (numbers, booleans, null, dates, flow / block syntax, tags,
+# anchors, comments, non-finite floats): as values of str options they must survive save + load as the same str
+YAML_TRICKY = ["123", "1.0", "1e3", "1E3", ".5", "5.", "+1", "-1", "true", "True", "null", "None", "~", "yes", "off",
+               "0x1F", "0o17", "017", "1_000", "a: b", "- a", "# c", "a #c", "[a]", "{a: 1}", "!tag", "&a", "*a", "? a",
+               "| a", "> a", "@a", "%a", "'a'", " a", "a ", "", "2024-01-01", "12:30:00", ".nan", ".inf", "-.inf", "nan",
+               "inf", "1e-3", "1.5e+3", "=", "a,b"]
+
+
+def oracle_unknown_names(b, kw, out):
+    """Interpreted parameters: an option given as a string that is not one of the documented names must raise."""
+    def unknown(x, valid):
+        if isinstance(x, str):
+            return x not in valid
+        if isinstance(x, list):
+            return any(isinstance(n, str) and n not in valid for n in x)
+        return False
+    probes = []
+    if b == "get_aug_config":
+        probes = [("intensity_aug", kw.get("intensity_aug"), INTENSITY), ("geometric_aug", kw.get("geometric_aug"), GEOMETRIC)]
+    elif b == "get_data_config" and kw.get("use_augmentations_train"):
+        probes = [("intensity_aug", kw.get("intensity_aug"), INTENSITY), ("geometry_aug", kw.get("geometry_aug"), GEOMETRIC)]
+    elif b == "get_backbone_config":
+        probes = [("backbone_cfg", kw.get("backbone_cfg"), PRESETS)]
+    elif b == "get_head_configs":
+        probes = [("head_cfg", kw.get("head_cfg"), HEADS)]
+    elif b == "get_model_config":
+        probes = [("backbone_config", kw.get("backbone_config", "unet"), PRESETS), ("head_configs", kw.get("head_configs"), HEADS)]
+    elif b == "get_trainer_config":
+        probes = [("lr_scheduler", kw.get("lr_scheduler"), SCHEDULERS)]
+    return [f"{p}={v!r} names an undocumented option but the builder did not raise"
+            for p, v, valid in probes if unknown(v, valid) and "ok" in out]
+
+
+def oracle_aug_dict(kw, out):
+    """Augmentation dicts: a probability outside [0, 1] (NaN and infinities included) must be rejected."""
+    bad = []
+    if "train_labels_path" in kw and not kw.get("use_augmentations_train"):
+        return bad            # get_data_config ignores the augmentation arguments unless augmentation is switched on
+    for a in ("intensity_aug", "geometric_aug", "geometry_aug"):
+        d = kw.get(a)
+        if isinstance(d, dict):
+            for k, v in d.items():
+                if k.endswith("_p") and not prob_expect(v) and "ok" in out:
+                    bad.append(f"{a}[{k!r}]={v!r} is not a probability but was accepted")
+    return bad
+
+
 def gen_cases(run, impl):
+    import copy
     import inspect
     rng = run.rng
     thorough = run.tier == "thorough"
@@ -509,13 +710,18 @@ def gen_cases(run, impl):
     def add(kind, term, fn, **meta):
         cases.append({"kind": kind, "term": term, "fn": fn, **meta})
 
+    # every builder / constructor case is run as a call - mutate - call sequence (attempt_twice), each
+    # call on its own deep copy of the arguments (so mutating the first result cannot reach the second
+    # call through an argument object the configuration stores by reference)
     def build(name, kw, **meta):
         b = impl.builder(name)
-        add("build", f'CBuild "{name}" {kw_term(kw)}', (lambda b=b, kw=kw: b(**kw)), builder=name, kw=kw, **meta)
+        add("build", f'CBuild "{name}" {kw_term(kw)}', (lambda b=b, kw=kw: b(**copy.deepcopy(kw))), builder=name, kw=kw,
+            twice=True, **meta)
 
     def mk(cname, kw, **meta):
         cls = impl.classes[cname]
-        add("mk", f'CMk "{cname}" {kw_term(kw)}', (lambda cls=cls, kw=kw: cls(**kw)), cls=cname, kw=kw, **meta)
+        add("mk", f'CMk "{cname}" {kw_term(kw)}', (lambda cls=cls, kw=kw: cls(**copy.deepcopy(kw))), cls=cname, kw=kw,
+            twice=True, **meta)
 
     # -- G1: augmentation lists (exhaustive up to length 4) + strings + dicts + invalid
     for names in (INTENSITY, GEOMETRIC):
@@ -544,7 +750,15 @@ def gen_cases(run, impl):
                {"intensity_aug": {"bogus": 1.0}, "geometric_aug": None},
                {"intensity_aug": None, "geometric_aug": {"scale": [0.5, 1.5], "erase_p": 0.25, "mixup_lambda": [0.125, 0.25]}},
                {"intensity_aug": 3, "geometric_aug": True}, {"intensity_aug": [1], "geometric_aug": None},
-               {"intensity_aug": None}, {"intensity_aug": None, "geometric_aug": None, "bogus": 1}]:
+               {"intensity_aug": None}, {"intensity_aug": None, "geometric_aug": None, "bogus": 1},
+               {"intensity_aug": {"contrast_p": NAN}, "geometric_aug": None},
+               {"intensity_aug": {"brightness_p": INF}, "geometric_aug": None},
+               {"intensity_aug": None, "geometric_aug": {"mixup_p": NAN}},
+               {"intensity_aug": None, "geometric_aug": {"affine_p": -INF, "rotation": 30.0}},
+               {"intensity_aug": None, "geometric_aug": {"erase_p": 1.0, "rotation": NAN, "scale": (INF, 1.0)}},
+               {"intensity_aug": "Contrast", "geometric_aug": None}, {"intensity_aug": "", "geometric_aug": None},
+               {"intensity_aug": None, "geometric_aug": "rotate"}, {"intensity_aug": [], "geometric_aug": ["scale", ""]},
+               {"intensity_aug": "contrast_p", "geometric_aug": "affine"}]:
         build("get_aug_config", kw)
 
     # -- G2: backbones
@@ -608,8 +822,29 @@ def gen_cases(run, impl):
         build(name, {**base[name], "bogus_parameter": 1})
     build("get_data_config", {"train_labels_path": "a.slp"})
     # builder-level invalid values (validators reached through the builders)
-    for kw in [{"scale": -0.5}, {"scale": 1}, {"scale": [0.5, 0.5]}, {"scale": 0.0}]:
-        build("get_data_config", {**base["get_data_config"], **kw})
+    for kw in [{"scale": -0.5}, {"scale": 1}, {"scale": [0.5, 0.5]}, {"scale": 0.0}, {"scale": NAN}, {"scale": INF},
+               {"scale": -INF}, {"scale": [0.5, NAN]}, {"scale": [INF, 0.5]}, {"scale": [0.5, -INF]}, {"scale": -0.0}]:
+        build("get_data_config", {**base["get_data_config"], **kw}, expect_scale=True)
+    # interpreted flags of get_data_config: every branch of use_augmentations_train x intensity_aug / geometry_aug
+    for ua in (False, True):
+        for ia, ga in [(None, None), ("contrast", None), (None, "mixup"), (["brightness", "contrast"], ["translate", "rotation"]),
+                       ({"contrast_p": 0.5}, {"rotation": 45.0, "affine_p": 1.0}), ("foo", None), (None, ["mixup", "bar"]),
+                       (("contrast",), None), ({"contrast_p": NAN}, None), (None, {"erase_p": 2.0})]:
+            build("get_data_config", {**base["get_data_config"], "use_augmentations_train": ua, "intensity_aug": ia,
+                                      "geometry_aug": ga}, interpreted=True)
+    # interpreted parameters of get_model_config / get_trainer_config: every documented name and dict, unknown names
+    for p in list(PRESETS) + ["resnet", "unet_foo", "swint_large", "", "UNET"]:
+        build("get_model_config", {"backbone_config": p, "head_configs": rng.choice(HEAD_ORDER)}, interpreted=True)
+    for h in HEAD_ORDER + ["foo", "", "Centroid", "bottom_up"]:
+        build("get_model_config", {"backbone_config": rng.choice(list(PRESETS)), "head_configs": h}, interpreted=True)
+    for iw in ["default", "xavier", "foo"]:
+        build("get_model_config", {"init_weight": iw, "head_configs": "centroid", "pretrained_backbone_weights": "bb.ckpt",
+                                   "pretrained_head_weights": "hd.ckpt"}, interpreted=True)
+    for es in (False, True):
+        for ls in [None, "step_lr", "reduce_lr_on_plateau", "StepLR", "", "cosine", {"step_lr": {"step_size": 3}},
+                   {"reduce_lr_on_plateau": {"factor": 0.25}}]:
+            build("get_trainer_config", {"early_stopping": es, "early_stopping_min_delta": 0.25, "early_stopping_patience": 3,
+                                         "lr_scheduler": ls}, interpreted=True)
     for kw in [{"optimizer": "SGD"}, {"learning_rate": 0.0}, {"learning_rate": -1}, {"trainer_num_devices": -1},
                {"trainer_num_devices": [0, 1]}, {"trainer_num_devices": "cpu"}, {"trainer_num_devices": True},
                {"early_stopping_min_delta": -1.0}, {"early_stopping_patience": -1}, {"lr_scheduler": "foo"},
@@ -631,7 +866,7 @@ def gen_cases(run, impl):
 
     # -- G5: validators: every validated field x boundary / out-of-range values; model types; oneof
     values = [-1, -0.5, -0.0001, 0, 0.0, 0.5, 1, 1.0, 1.0001, 1.5, 2, True, False, None, "a", [0.5], [0.5, -0.5], [],
-              (0.5, 0.5), [1], "auto", "Adam", "AdamW", "tiny"]
+              (0.5, 0.5), [1], "auto", "Adam", "AdamW", "tiny", NAN, INF, -INF, [0.5, NAN], [INF], [-INF, 0.5], -0.0]
     for cname, cls in impl.classes.items():
         mk(cname, {})
         for a in cls.__attrs_attrs__:
@@ -688,6 +923,42 @@ def gen_cases(run, impl):
     chain(sent["get_data_config"], {k: v for k, v in sent["get_model_config"].items()}, sent["get_trainer_config"],
           all_together=True)
     chain({"scale": [0.5, 0.5]}, {"head_configs": "centroid"}, {})          # list scale: accepted by attrs, not by the typed field
+    # normalisation must change no value whatever the strides are: dict heads / dict backbones that disagree
+    for _ in range(8 if not thorough else 60):
+        hs, ps = rng.choice([1, 2, 4, 8, 16, 32]), rng.choice([1, 2, 4, 8, 16, 32])
+        fam = rng.choice(FAMILIES)
+        bb = {fam: {"output_stride": rng.choice([1, 2, 4, 8, 16, 32]), "max_stride": rng.choice([4, 8, 16, 32, 64])}}
+        hname = rng.choice(HEAD_ORDER)
+        hd = {hname: {"confmaps": {"sigma": 2.5, "output_stride": hs}}}
+        if hname == "bottomup":
+            hd[hname]["pafs"] = {"sigma": 4.0, "output_stride": ps}
+        chain({}, {"backbone_config": rng.choice([bb, rng.choice(list(PRESETS))]), "head_configs": hd}, {}, strides=True)
+    # YAML round trip of str options that look like something else, of ints given for float options, of huge / tiny
+    # numbers, of tuples / lists / None, of non-finite floats in unvalidated options
+    dstr = ["train_labels_path", "val_labels_path", "test_file_path", "provider", "data_pipeline_fw", "np_chunks_path",
+            "litdata_chunks_path"]
+    mstr = ["pretrained_backbone_weights", "pretrained_head_weights"]
+    tstr = ["trainer_accelerator", "save_ckpt_path", "resume_ckpt_path", "wandb_entity", "wandb_project", "wandb_name",
+            "wandb_api_key", "wandb_mode", "wandb_resume_prv_runid", "wandb_group_name"]
+    tricky = list(YAML_TRICKY)
+    rng.shuffle(tricky)
+    while tricky:
+        take = [tricky.pop() for _ in range(min(len(tricky), len(dstr) + len(mstr) + len(tstr)))]
+        slots = [("d", p) for p in dstr] + [("m", p) for p in mstr] + [("t", p) for p in tstr]
+        rng.shuffle(slots)
+        kws = {"d": {}, "m": {"head_configs": rng.choice(HEAD_ORDER)}, "t": {}}
+        for (w, p), v in zip(slots, take):
+            kws[w][p] = v
+        chain(kws["d"], kws["m"], kws["t"], yaml_strings=True)
+    chain({"scale": 0.001, "chunk_size": 2 ** 40, "crop_hw": (160, 192), "max_height": 2 ** 31, "min_crop_size": None},
+          {"head_configs": "centered_instance"},
+          {"learning_rate": 1, "early_stopping_min_delta": 0, "seed": 2 ** 62, "steps_per_epoch": None, "trainer_num_devices": 1,
+           "ckpt_save_top_k": -1})
+    chain({"scale": 1e-05}, {"head_configs": "single_instance"},
+          {"learning_rate": 1e-10, "early_stopping_min_delta": 1e+16, "trainer_num_devices": 1})
+    chain({"use_augmentations_train": True, "intensity_aug": {"gaussian_noise_mean": -INF, "brightness": (0.5, INF)},
+           "geometry_aug": {"rotation": NAN, "scale": (INF, 1.0), "mixup_lambda": [0.125, NAN]}},
+          {"head_configs": "bottomup"}, {})
     chain({}, {"head_configs": None}, {})
     for _ in range(4 if not thorough else 40):
         dk = {p: sent["get_data_config"][p] for p in rng.sample(list(sent["get_data_config"]), 5)
@@ -758,48 +1029,69 @@ def coq_status(run):
 
 
 def build_generated(run):
-    """Gen/C20_*.v, Eval.v (always recompiled: cheap) and the per-run statement file."""
+    """Gen/C20_*.v, Eval.v, PerRunBase.v (always recompiled: cheap), then the per-run statement files are
+    started in parallel threads; returns (model built?, join) where join() waits for them, records one
+    obligation per theorem and returns True iff all of them compiled closed."""
     for f in GEN_CHAIN:
         rc, out = core.coqc(f, timeout=600)
         if rc != 0:
             run.obligation(f"compile {f.relative_to(core.VERIF)} (regenerated model)", False, out[-1500:])
-            return False, False
+            return False, (lambda: False)
     run.obligation("compile the regenerated model (Gen/C20_Schema.v, Gen/C20_Builders.v, C20/Eval.v)", True)
-    res = core.check_props(PER_RUN, timeout=1500)
-    ok = res["rc"] == 0 and not res["foreign_axioms"] and not res.get("unprinted")
-    if res["rc"] == 0:
-        for n in res["printed"]:
-            run.obligation(f"theorem {n} (per run, about the regenerated functions)", True)
-            run.axioms.update(res["axioms"].get(n, []))
-        if res["foreign_axioms"]:
-            run.obligation("PerRun.v: only standard-library axioms", False, "; ".join(res["foreign_axioms"]))
-        if res.get("unprinted"):
-            run.obligation("PerRun.v: every theorem has Print Assumptions", False, ", ".join(res["unprinted"]))
-    else:
-        run.obligation("compile C20/PerRun.v: the per-run theorems about the regenerated schema and builders "
-                       "(pass-through, defaults, augmentation lists, validators, normalisation)", False, res["log_tail"])
-    run.coverage.setdefault("prop_files", []).append({k: res[k] for k in ("file", "rc", "printed", "wall_s")})
-    return True, ok
+    from concurrent.futures import ThreadPoolExecutor
+    ex = ThreadPoolExecutor(max_workers=len(PER_RUN_PARTS))
+    base = core.check_props(PER_RUN_BASE, timeout=600)
+    futs = [ex.submit(core.check_props, f, 1500) for f in PER_RUN_PARTS] if base["rc"] == 0 else []
+
+    def join():
+        results = [base] + [f.result() for f in futs]
+        ex.shutdown()
+        ok = base["rc"] == 0
+        for res in results:
+            ok = ok and res["rc"] == 0 and not res["foreign_axioms"] and not res.get("unprinted")
+            if res["rc"] == 0:
+                for n in res["printed"]:
+                    run.obligation(f"theorem {n} (per run, about the regenerated functions)", True)
+                    run.axioms.update(res["axioms"].get(n, []))
+                if res["foreign_axioms"]:
+                    run.obligation(f"{res['file']}: only standard-library axioms", False, "; ".join(res["foreign_axioms"]))
+                if res.get("unprinted"):
+                    run.obligation(f"{res['file']}: every theorem has Print Assumptions", False, ", ".join(res["unprinted"]))
+            else:
+                run.obligation(f"compile {res['file']}: the per-run theorems about the regenerated schema and builders "
+                               "(pass-through, defaults, augmentation lists, interpreted parameters, validators, "
+                               "normalisation)", False, res["log_tail"])
+            run.coverage.setdefault("prop_files", []).append({k: res[k] for k in ("file", "rc", "printed", "wall_s")})
+        if ok:
+            rc, out = core.coqc(PER_RUN, timeout=300)
+            if rc != 0:
+                run.obligation("compile C20/PerRun.v (re-export of the per-run files)", False, out[-800:])
+                ok = False
+        return ok
+    return True, join
 
 
 def check(run: core.Run) -> int:
     summary = regenerate(run)
-    model_ok, perrun_ok = False, False
+    model_ok, join = False, (lambda: False)
     generic_ok = run.build_and_prove(PROP_FILES)
     if summary is not None and generic_ok:
-        model_ok, perrun_ok = build_generated(run)
+        model_ok, join = build_generated(run)      # the per-run files compile while the implementation runs
     impl = Impl()
     try:
-        return _check(run, impl, summary, model_ok, perrun_ok)
+        return _check(run, impl, summary, model_ok, join)
     finally:
         impl.close()
 
 
-def _check(run, impl, summary, built, perrun_ok):
+def _check(run, impl, summary, built, join_perrun):
     cases, sent = gen_cases(run, impl)
     # implementation
     for c in cases:
-        c["impl"] = attempt(c["fn"])
+        if c.get("twice"):
+            c["impl"], c["second"] = attempt_twice(c["fn"])
+        else:
+            c["impl"] = attempt(c["fn"])
         if c["kind"] == "chain":
             c["extra"] = getattr(impl, "last_chain", None) if "ok" in c["impl"] else None
             impl.last_chain = None
@@ -867,6 +1159,7 @@ def _check(run, impl, summary, built, perrun_ok):
         defaults[b] = {p: prm.default for p, prm in inspect.signature(impl.builder(b)).parameters.items()
                        if prm.default is not inspect.Parameter.empty}
     n_fail = 0
+    shared_owners = set()
 
     def report(c, why, selector=None):
         nonlocal n_fail
@@ -906,6 +1199,56 @@ def _check(run, impl, summary, built, perrun_ok):
                         report(c, why, sel)
             else:
                 nontrivial = "ok" in out
+            # interpreted parameters, whatever the stream
+            for why in oracle_unknown_names(b, kw, out) + oracle_aug_dict(kw, out):
+                report(c, why)
+            if c.get("expect_scale") and ("ok" in out) != scale_expect(kw["scale"]):
+                report(c, f"get_data_config(scale={kw['scale']!r}): accepted={'ok' in out}, the property expects "
+                          f"{scale_expect(kw['scale'])}")
+            if c.get("interpreted") and "ok" in out:
+                nontrivial = True
+                if b == "get_data_config":
+                    aug = cget(out["ok"], ("augmentation_config",))
+                    if not kw["use_augmentations_train"]:
+                        if aug is not None:
+                            report(c, "use_augmentations_train=False but an augmentation configuration was built")
+                    else:
+                        for sel, why in oracle_aug(kw["intensity_aug"], kw["geometry_aug"], {"ok": aug}):
+                            report(c, why, sel)
+                        for a, sub, cn in (("intensity_aug", "intensity", "IntensityConfig"), ("geometry_aug", "geometric", "GeometricConfig")):
+                            if isinstance(kw[a], dict):
+                                for k, v in kw[a].items():
+                                    if dumps(cget(aug, (sub, k))) != dumps(canon(v)):
+                                        report(c, f"{a}[{k!r}]={v!r} not found unmodified in augmentation_config.{sub}")
+                            if kw[a] is None and dumps(cget(aug, (sub,))) != dumps(impl.default_tree(cn)):
+                                report(c, f"{a}=None but augmentation_config.{sub} does not hold the schema defaults")
+                elif b == "get_model_config":
+                    for why in oracle_backbone(impl, kw.get("backbone_config", "unet"), {"ok": cget(out["ok"], ("backbone_config",))}):
+                        report(c, why)
+                    for why in oracle_head(impl, kw.get("head_configs"), {"ok": cget(out["ok"], ("head_configs",))}):
+                        report(c, why)
+                    for p, path in (("init_weight", "init_weights"), ("pretrained_backbone_weights",) * 2, ("pretrained_head_weights",) * 2):
+                        if p in kw and dumps(cget(out["ok"], (path,))) != dumps(canon(kw[p])):
+                            report(c, f"{p}={kw[p]!r} not found unmodified at {path}")
+                elif b == "get_trainer_config":
+                    es = cget(out["ok"], ("early_stopping",))
+                    want = {"stop_training_on_plateau": kw["early_stopping"], "min_delta": kw["early_stopping_min_delta"],
+                            "patience": kw["early_stopping_patience"]}
+                    for k, v in want.items():
+                        if dumps(cget(es, (k,))) != dumps(canon(v)):
+                            report(c, f"early stopping option {k}={v!r} not found unmodified")
+                    ls, sch = kw["lr_scheduler"], cget(out["ok"], ("lr_scheduler",))
+                    for name, cn in (("step_lr", "StepLRConfig"), ("reduce_lr_on_plateau", "ReduceLROnPlateauConfig")):
+                        got = cget(sch, (name,))
+                        if ls == name:
+                            if dumps(got) != dumps(impl.default_tree(cn)):
+                                report(c, f"lr_scheduler={ls!r}: lr_scheduler.{name} does not hold the schema defaults")
+                        elif isinstance(ls, dict) and name in ls:
+                            for k, v in ls[name].items():
+                                if dumps(cget(got, (k,))) != dumps(canon(v)):
+                                    report(c, f"lr_scheduler dict: {name}.{k}={v!r} not found unmodified")
+                        elif got is not None:
+                            report(c, f"lr_scheduler={ls!r}: lr_scheduler.{name} is set as well")
         elif c["kind"] == "mk":
             accepted = "ok" in out
             if "validated_field" in c:
@@ -955,16 +1298,35 @@ def _check(run, impl, summary, built, perrun_ok):
                             got = cget(flags["cfg"], (SECTION[b],) + path)
                             if got is KeyError or loose(got) != loose(canon(v)):
                                 report(c, f"argument {p}={v!r} not at {SECTION[b]}.{'.'.join(path)} of the training configuration")
-        elif c["kind"] == "norm":
+        if c.get("second"):
+            for why, owners in oracle_sequence(c["second"]):
+                report(c, why, sel_f52(impl, owners))
+                shared_owners.update(outermost_shared(impl, owners))
+        if c["kind"] == "norm":
             if c["what"] == "complete" and ("err" in out or dumps(out["ok"]) != dumps(canon(c["plain"]))):
                 report(c, "verify_training_cfg is not the identity on a complete configuration")
             nontrivial = c["what"] != "complete"
         run.case(c["term"], nontrivial)
 
+    # "fresh object per call": the translated builders are closed functions of their arguments.  That is a
+    # translator obligation (fail-closed: a builder may read parameters and locals only; every schema default
+    # is an immutable literal, a factory, or is LISTED as a shared mutable literal) cross-checked here.
+    if summary is not None:
+        declared = {tuple(x) for x in summary.get("mutable_literal_defaults", [])}
+        run.obligation("fresh object per call (translator obligation): builders read parameters and locals only, and "
+                       "the schema defaults declared as shared mutable literals are exactly those attrs reports",
+                       declared == impl.mutable_literal_fields,
+                       f"translator {sorted(declared)} attrs {sorted(impl.mutable_literal_fields)}")
+        run.obligation("call-mutate-call sequences: every object shared between / value leaking into the second "
+                       "result is a declared shared mutable-literal default", shared_owners <= declared,
+                       f"observed {sorted(shared_owners)} declared {sorted(declared)}")
+        run.coverage["shared_mutable_literal_defaults"] = sorted(map(list, declared))
+
     # known findings: replay the corpus witnesses on the implementation (prints KNOWN-FINDING while they reproduce)
     replayed = replay_corpus(run, impl)
 
     # status of the dichotomy theorems, cross-checked against the implementation's behaviour on the witnesses
+    perrun_ok = join_perrun()
     if perrun_ok:
         st = coq_status(run)
         if st is not None:
@@ -1021,6 +1383,8 @@ def loose_plain(c):
     if isinstance(c, dict):
         if "f" in c:
             return float(Fraction(c["f"][0], c["f"][1]))
+        if "nf" in c:
+            return float(c["nf"])
         if "m" in c:
             return "???"
         if "t" in c:
@@ -1033,7 +1397,7 @@ def loose_plain(c):
 
 def replay_corpus(run, impl):
     """Replays corpus/C20/*.json on the implementation through the oracle."""
-    hit = {"F12": False, "F13": False, "F16": False}
+    hit = {"F12": False, "F13": False, "F16": False, "F52": False}
     d = core.CORPUS / "C20"
     for f in sorted(d.glob("*.json")) if d.exists() else []:
         w = json.loads(f.read_text())
@@ -1052,6 +1416,11 @@ def replay_corpus(run, impl):
                 run.violation("failing-input", {"witness": str(f), "impl": out,
                                                 "oracle": "documented preset does not yield a training configuration"},
                               selector=SEL_F13 if out["err"] == "ValidationError" else None)
+        elif fid == "F52":
+            out, sec = attempt_twice(lambda: impl.builder(w["builder"])(**json.loads(json.dumps(w["kw"]))))
+            for why, owners in oracle_sequence(sec or {}):
+                hit["F52"] = True
+                run.violation("failing-input", {"witness": str(f), "impl": out, "oracle": why}, selector=sel_f52(impl, owners))
         elif fid == "F16":
             out = attempt(lambda: impl.classes[w["cls"]](model_type=w["model_type"]))
             if "ok" in out:
